@@ -234,10 +234,15 @@ func DrawDir(prop, tier string, ch *Chooser, lean bool, s *Sim) *Dir {
 			}
 		case 7, 8, 9:
 			op.Kind, op.DN = "search-user", userDN(ch.Choose(pool))
+			if ch.Choose(3) == 2 {
+				op.Kind = "search-dn" // base object search of the entry itself: the generic search route
+			}
 		case 10:
 			op.Kind, op.DN = "search-group", groupDN(ch.Choose(3))
 		default:
-			switch ch.Choose(3) {
+			switch ch.Choose(4) {
+			case 3:
+				op.Kind = "set-tokengroups" // concerns <SID=...> searches only
 			case 0:
 				op.Kind = "set-users"
 				for j := 0; j < pool; j++ {
@@ -316,7 +321,11 @@ func (d *Dir) Setup(s *Sim) {
 				case 5:
 					_ = dir.AllowAnonymousBind()
 				case 6:
-					dir.SetTokenGroups(map[string][]*gldap.Entry{})
+					tg := map[string][]*gldap.Entry{}
+					if i%16 == 6 {
+						tg["S-1-1"] = []*gldap.Entry{gldap.NewEntry("cn=tg,ou=groups,dc=example,dc=org", map[string][]string{"cn": {"tg"}})}
+					}
+					dir.SetTokenGroups(tg)
 				case 7:
 					_ = dir.TokenGroups()
 				}
@@ -443,13 +452,17 @@ func (d *Dir) drive(w *simrt.World) {
 				}
 			}
 			res.Code, res.Err = codeOf(conn.Modify(mr))
-		case "search-user", "search-group":
+		case "search-user", "search-group", "search-dn":
 			base := dirUserDN
 			if op.Kind == "search-group" {
 				base = dirGroupDN
 			}
 			rdn := op.DN[:strings.Index(op.DN, ",")]
-			sr, err := conn.Search(ldap.NewSearchRequest(base, ldap.ScopeWholeSubtree, ldap.NeverDerefAliases, 0, 0, false, "("+rdn+")", nil, nil))
+			sreq := ldap.NewSearchRequest(base, ldap.ScopeWholeSubtree, ldap.NeverDerefAliases, 0, 0, false, "("+rdn+")", nil, nil)
+			if op.Kind == "search-dn" {
+				sreq = ldap.NewSearchRequest(op.DN, ldap.ScopeBaseObject, ldap.NeverDerefAliases, 0, 0, false, "(objectClass=*)", nil, nil)
+			}
+			sr, err := conn.Search(sreq)
 			res.Code, res.Err = codeOf(err)
 			if sr != nil {
 				for _, e := range sr.Entries {
@@ -468,6 +481,8 @@ func (d *Dir) drive(w *simrt.World) {
 			dir.SetGroups(entries(op.Users)...)
 		case "set-anon":
 			dir.SetAllowAnonymousBind(op.Anon)
+		case "set-tokengroups":
+			dir.SetTokenGroups(map[string][]*gldap.Entry{"S-1-1": {gldap.NewEntry("cn=tg,"+dirGroupDN, map[string][]string{"cn": {"tg"}})}})
 		}
 		simrt.Emit("d-op", i, 0, int64(res.Code), int64(len(res.Entries)), res.Err, res)
 	}
@@ -748,7 +763,7 @@ func (d *Dir) judge(s *Sim, op *dOp, res *dResult) {
 				u.Attrs[c.Type] = append([]string(nil), c.Vals...)
 			}
 		}
-	case "search-user", "search-group":
+	case "search-user", "search-group", "search-dn":
 		s.Probe("C20-search")
 		pool := d.mUsers
 		if op.Kind == "search-group" {
